@@ -943,7 +943,15 @@ def rule_each_instance_wired(repo):
     return rule_netblock(repo)
 
 
-RULES = [rule_every_register_clocked, rule_every_cycle_group_runs, rule_no_block_dropped, rule_each_instance_wired, rule_cycle_loop_repeats, rule_request_slices_ordered, rule_eval_comb_is_the_comb_schedule, rule_wiring, rule_grant, rule_siblings, rule_options, rule_clocking, rule_clocking_ffset,
+def rule_widest_arbiter_is_built(repo):
+    """a round-robin arbiter of n requesters uses a 2n+1-bit kill chain: the widest arbiter the datatype admits (n = 511) needs
+    every width up to 1023 to be constructible -- the bound tables of Bits cover exactly the widths the constructor accepts
+    (shared with C04: R-C04-tables)"""
+    from rules.c04 import rule_tables
+    return rule_tables(repo)
+
+
+RULES = [rule_widest_arbiter_is_built, rule_every_register_clocked, rule_every_cycle_group_runs, rule_no_block_dropped, rule_each_instance_wired, rule_cycle_loop_repeats, rule_request_slices_ordered, rule_eval_comb_is_the_comb_schedule, rule_wiring, rule_grant, rule_siblings, rule_options, rule_clocking, rule_clocking_ffset,
          rule_slice_nets_collected, rule_slice_nets_driven, rule_late_connections, rule_pointer_flipped,
          rule_installed_late, rule_cycle_settles]
 THOROUGH_RULES = [rule_grant_larger]
